@@ -324,9 +324,14 @@ def record(objs, codec, encoding, dump_how, load_how, plan_fn, tagged, tmpdir):
         realreads = list(reader.reads)
         marks = reader.marks
         k = len(realreads)
-        emitted = [ids[marks[j]:(marks[j + 1] if j + 1 < len(marks) else len(ids))]
-                   for j in range(k)]
-        final = ids[marks[k]:] if len(marks) > k else []
+        if len(marks) > k:          # the terminating empty read was observed
+            emitted = [ids[marks[j]:marks[j + 1]] for j in range(k)]
+            final = ids[marks[k]:]
+        else:
+            # the loop ended without an empty read: what came after the last read call may
+            # have been emitted at completion, so it is not attributed to that read
+            emitted = [ids[marks[j]:marks[j + 1]] for j in range(k - 1)] + [[]] * min(k, 1)
+            final = ids[marks[k - 1]:] if k else ids
     else:
         realreads = [min(CHUNK, len(data) - p) for p in range(0, len(data), CHUNK)]
         emitted = [[] for _ in realreads]
@@ -603,7 +608,7 @@ def run_case(desc, tmpdir):
 
 
 def validate(traces, invariants=('TraceConfluence',)):
-    return C.validate_traces('JsonLinesTrace', traces, workers=4, chunk=300,
+    return C.validate_traces('JsonLinesTrace', traces, workers=4, chunk=600,
                              cfg_text=C.cfg(spec='TraceSpec', constants=TRACE_CONST,
                                             invariants=list(invariants)))
 
@@ -652,19 +657,20 @@ def main(tier, replay):
 
     # 1+2. model checking and behaviour generation, all TLC jobs concurrently -----
     base = dict(NL=NL, HdrLen=1, TrlLen=1, Greedy=False, KeepHist=False)
+    allenv = {1, 2, 3, 4, 14}         # regular file R = 1..4, file object with short reads R = 4
     if thorough:
         mc_jobs = [
-            dict(base, Syms={11, 21, 31}, MaxObjs=3, MaxLen=2, Comps={0}, Envs={1, 2, 3, 4, 14}),
-            dict(base, Syms={11, 31}, MaxObjs=3, MaxLen=2, Comps={1}, Envs={1, 2, 3, 4, 14}),
-            dict(base, Syms={11, 21, 31}, MaxObjs=2, MaxLen=2, Comps={1}, Envs={1, 2, 3, 4, 14},
+            dict(base, Syms={11, 21, 31}, MaxObjs=3, MaxLen=2, Comps={0}, Envs=allenv),
+            dict(base, Syms={11, 31}, MaxObjs=3, MaxLen=2, Comps={1}, Envs=allenv),
+            dict(base, Syms={11, 21, 31}, MaxObjs=3, MaxLen=2, Comps={1}, Envs={14}),
+            dict(base, Syms={11, 21, 31}, MaxObjs=2, MaxLen=2, Comps={1}, Envs=allenv,
                  HdrLen=2, TrlLen=2),
             dict(base, Syms={11, 21}, MaxObjs=2, MaxLen=3, Comps={0, 1}, Envs={2, 3, 13}),
         ]
     else:
         mc_jobs = [
-            dict(base, Syms={11, 21, 31}, MaxObjs=3, MaxLen=1, Comps={0}, Envs={1, 2, 3, 4, 14}),
-            dict(base, Syms={11, 21, 31}, MaxObjs=2, MaxLen=2, Comps={0}, Envs={1, 2, 3, 4, 14}),
-            dict(base, Syms={11, 31}, MaxObjs=2, MaxLen=2, Comps={1}, Envs={1, 2, 3, 4, 14}),
+            dict(base, Syms={11, 21, 31}, MaxObjs=3, MaxLen=2, Comps={0}, Envs=allenv),
+            dict(base, Syms={11, 21, 31}, MaxObjs=2, MaxLen=2, Comps={1}, Envs=allenv),
         ]
     gbase = dict(NL=NL, HdrLen=1, TrlLen=1, Greedy=True, KeepHist=True)
     nsim = 5000 if thorough else 900
@@ -689,7 +695,7 @@ def main(tier, replay):
                           tlc_seed=seed + 1)
         return C.extract_printed(r.stdout, 'BEH')
     results = C.par([lambda c=c: mc(c) for c in mc_jobs] + [lambda j=j: gen(j) for j in gen_jobs],
-                    max_workers=4)
+                    max_workers=5)
     mc_stats = []
     for const, r in zip(mc_jobs, results[:len(mc_jobs)]):
         if r.violated:
@@ -715,14 +721,18 @@ def main(tier, replay):
                            'exhaustive': sim is None, 'generated': len(behs), 'distinct': n_all,
                            'replayed': len(lst)})
         for i, (objs, comp, kind, R, hist) in enumerate(lst):
-            codecs = ['none'] if comp == 0 else (['gzip', 'zstd'] if (thorough or i % 2 == 0)
-                                                 else ['zstd', 'gzip'][:1 + (i % 4 == 1)])
+            if comp == 0:
+                codecs = ['none']
+            elif thorough or i % 4 == 0:
+                codecs = ['gzip', 'zstd']
+            else:
+                codecs = [['gzip', 'zstd'][i % 2]]
             for codec in codecs:
                 cases.append({'kind': 'beh', 'objs': objs, 'comp': comp, 'codec': codec,
                               'mkind': kind, 'R': R, 'reads': hist, 'hdr': const['HdrLen'],
                               'trl': const['TrlLen'],
                               'load_how': 'open_obj' if i % 5 == 4 else 'fileobj',
-                              'dump_how': ['fileobj', 'open_obj', 'path'][i % 11 % 3 if i % 11 < 3 else 0]})
+                              'dump_how': {0: 'open_obj', 1: 'path'}.get(i % 11, 'fileobj')})
     n_beh = len(cases)
     sizes = (['empty'] * 6 + ['tiny'] * 60 + ['medium'] * 40 + ['big'] * 14) if not thorough else \
             (['empty'] * 12 + ['tiny'] * 400 + ['medium'] * 300 + ['big'] * 160)
